@@ -15,7 +15,9 @@ class C02(Prop):
     level_text = ("Theorems (Coq, every schedule, any number of threads and per-thread call lists): at most one set() returns Ok; every loser gets "
                   "its own recorder back and no recorder token is lost or duplicated; when all threads are done and someone called set(), exactly one "
                   "Ok; a load returns Some(r) only for the winner's r and only after the pointer write; state INITIALIZED is absorbing, so once a "
-                  "load completed with Some(r) every load that starts later completes with Some(r); a load that read a non-INITIALIZED state returns None. "
+                  "load completed with Some(r) every load that starts later completes with Some(r); a load that read a non-INITIALIZED state returns None; "
+                  "and C02_spec_ok_on_model: the executable property the check evaluates (all five clauses of spec_ok, the stability walk over the step "
+                  "trace included) holds on the model's own run of every case, with no hypothesis on programs or schedule (round-robin tail included). "
                   "Tied to /repo by replaying generated schedules on the real cell through yield points at each atomic access and comparing the "
                   "step trace and every return value.")
     level_note = ("Sequentially consistent interleaving: the Acquire/Release/Relaxed annotations are not modelled (on x86-64 the harness could not "
